@@ -210,4 +210,7 @@ class Nameplate:
     S5A.upon(connected, enter=S5B, outputs=[])
     S5B.upon(lost, enter=S5A, outputs=[])
     S5.upon(release, enter=S5, outputs=[])  # mailbox is lazy
+    # the code can become known (set_code/input helper called, or a late
+    # "allocated" response) after we were closed: too late to claim anything
+    S5.upon(_set_nameplate, enter=S5, outputs=[])
     S5.upon(close, enter=S5, outputs=[])
